@@ -62,6 +62,9 @@ func (p hpkt) stat() *types.Stat {
 	case "irregular":
 		st.Mode = uint32(os.ModeIrregular | 0644)
 		st.Linkname = p.Link
+	case "dirsymlink": // both type bits at once
+		st.Mode = uint32(os.ModeDir | os.ModeSymlink | 0755)
+		st.Linkname = p.Link
 	case "chr":
 		st.Mode = uint32(os.ModeDevice | os.ModeCharDevice | 0644)
 		st.Linkname = p.Link
@@ -365,6 +368,10 @@ func hostileAlphabet() []hpkt {
 		{T: "STAT", Path: "c", Kind: "irregular", Link: "../../outside/o"},
 		{T: "STAT", Path: "c", Kind: "fifo", Link: "../../outside/o"},
 		{T: "STAT", Path: "c", Kind: "chr", Link: "../sibling"},
+		{T: "STAT", Path: "d", Kind: "symlink", Link: "/outside/od"}, // replaces a directory that has children named like the outside ones
+		{T: "STAT", Path: "d", Kind: "symlink", Link: "../../outside/od"},
+		{T: "STAT", Path: "a", Kind: "dirsymlink", Link: "/outside/od"}, // directory and symlink bits together
+		{T: "STAT", Path: "a/x", Kind: "file", Size: 3},
 		{T: "DATA", ID: 0, Size: 3}, // content for an id that was not requested
 		{T: "FIN"},
 	}
@@ -377,6 +384,8 @@ func hostileDests() []model.Tree {
 			{Path: "f", Type: "file", Perm: 0644, Mtime: 1300000000000000012, Data: []byte("old"), Size: 3}},
 		{{Path: "a", Type: "file", Perm: 0644, Mtime: 1300000000000000013, Data: []byte("afile"), Size: 5},
 			{Path: "s", Type: "symlink", Link: "../sibling", Perm: 0777, Mtime: 1300000000000000014}},
+		{{Path: "d", Type: "dir", Perm: 0755, Mtime: 1300000000000000018},
+			{Path: "d/x", Type: "file", Perm: 0644, Mtime: 1300000000000000019, Data: []byte("dx"), Size: 2}},
 		{{Path: "a", Type: "symlink", Link: "/outside/od", Perm: 0777, Mtime: 1300000000000000015},
 			{Path: "b", Type: "symlink", Link: "/outside/o", Perm: 0777, Mtime: 1300000000000000016},
 			{Path: "l", Type: "symlink", Link: "../../outside", Perm: 0777, Mtime: 1300000000000000017}},
@@ -412,7 +421,7 @@ func Hostile(c *Ctx) error {
 				seq := append(append([]hpkt{}, prefix...), p)
 				for di, d := range dests {
 					// thorough length-3 sequences: only two of the four destinations each (rotating)
-					if len(seq) == 3 && (n+di)%2 == 0 {
+					if len(seq) == 3 && (n+di)%3 != 0 {
 						continue
 					}
 					cases = append(cases, hostileCase{Script: seq, Dst: d, Origin: fmt.Sprintf("enum/len%d/dest%d", len(seq), di)})
